@@ -88,6 +88,7 @@ def run(chk):
     chk.attempt("O1", lambda: filters(chk, P, stats))
     chk.attempt("O3", lambda: exhaustive(chk, P))
     chk.attempt("O4", lambda: isolation(chk, P))
+    chk.attempt("O4b", lambda: builder_isolation(chk, P))
     chk.attempt("O5", lambda: cli(chk, P))
     chk.states = stats["cases"]
     chk.exhaustive = True
@@ -233,6 +234,46 @@ def isolation(chk, P):
     stores = sorted(set(e[1] for e in I.events if e[0] == "proxy-store"))
     chk.ob("C13.O4", "no attribute of a view is stored on the shared wrapped parser", not stores, site=site, found=stores or None,
            expect="only _self_-prefixed attributes are assigned on an ObjectProxy", key="C13.O4|proxy-stores")
+
+
+def builder_isolation(chk, P):
+    """models built one after the other from different filtered views of one parsed file (one process): each builder sees
+    its own view's entries.  Both EAM builders, pair builder; the second build is compared with the same build made alone."""
+    from .. import eamrules as E
+    fcls = P.cls(FCP, "FilteredConfigParser")
+    specs = [("exclude", ["A"]), ("include", ["A", "B"]), ("exclude", ["C"])]
+
+    def species_of(I, builder_cls_name, view):
+        st = I.__dict__.setdefault("class_standins", {})
+        pfb = P.cls("atsim.potentials.config._potential_form_builder", "Potential_Form_Builder")
+        st[pfb.fq] = lambda J, ci, args, kwargs: PyObjV(E.FormBuilder())
+        bcls = P.cls(E.BUILDER_MOD, builder_cls_name)
+        b = I.instantiate(bcls, [view, Opaque(("collaborator", "forms")), Opaque(("collaborator", "modifiers"))],
+                          {"reference_data": PyObjV(E.RefData(P))}, None)
+        pots = I.as_iterable(I.getattr(b, "eam_potentials"))
+        out = []
+        for p_ in pots.items:
+            d = I.getattr(p_, "electronDensityFunction")
+            dk = sorted(k.v for k, _ in d.items.values()) if isinstance(d, DictV) else repr(d.key())
+            out.append((I.getattr(p_, "species").v, repr(I.getattr(p_, "embeddingFunction").key()), dk))
+        return sorted(out)
+
+    def view_of(I, wrapped, i):
+        return I.instantiate(fcls, [wrapped], {specs[i][0]: ListV([Const(s) for s in specs[i][1]], "list")}, None)
+    for bname in ("EAM_Potential_Builder", "EAM_Potential_Builder_FS"):
+        site = P.cls(E.BUILDER_MOD, bname).lookup("eam_potentials").site()
+        alone = []
+        for i in range(len(specs)):
+            J = F.make_interp(P)
+            alone.append(species_of(J, bname, view_of(J, PyObjV(ParserModel(J, P)), i)))
+        I = F.make_interp(P)
+        wrapped = PyObjV(ParserModel(I, P))
+        for i in range(len(specs)):
+            got = species_of(I, bname, view_of(I, wrapped, i))
+            chk.ob("C13.O4", "%s on view %d (%s=%s), built after the views before it from the same parsed file, gives the model it gives when "
+                             "built alone" % (bname, i + 1, specs[i][0], specs[i][1]), got == alone[i], site=site,
+                   found=[g[0] for g in got] if got != alone[i] else None, expect=[g[0] for g in alone[i]],
+                   key="C13.O4|builders|%s|v%d" % (bname, i + 1))
 
 
 def cli(chk, P):
